@@ -428,7 +428,7 @@ func toGenericSlices(arguments []interface{}) []interface{} {
 		v := reflect.ValueOf(arg)
 		items := make([]interface{}, v.Len())
 		for j := range items {
-			items[j] = v.Index(j).Interface()
+			items[j] = valueOf(v.Index(j))
 		}
 		converted[i] = items
 	}
